@@ -29,7 +29,9 @@ Definition judge_C06 (s : sx) : verdict :=
         match status_fail st with
         | Some v => v
         | None =>
-          match judge_solve n P vd m' with
+          (* beyond 24 variables an Unsat answer is justified by its certificate alone (C06_refutation); a Sat answer by its model *)
+          let base := if (24 <? n)%nat && (certflag =? 1) && (vd =? 2) then Ok [2] else judge_solve n P vd m' in
+          match base with
           | Ok i =>
             if certflag =? 0 then Ok (i ++ [0])%list else
             if negb (rup_check n F cert) then Fail "line-not-rup" [Z.of_nat (List.length cert)]
